@@ -44,6 +44,7 @@ def c01(tier):
     defs = F.curated() + F.random_family(1000 + s, sizes(tier, 120, 1500), nmax=sizes(tier, 4, 5))
     defs += F.random_family(2000 + s, sizes(tier, 40, 400), nmax=4, publish=True)
     env = {"max_nodes": sizes(tier, 1500, 6000)}
+    run.add_mc(F.curated() + F.random_family(3000 + s, sizes(tier, 60, 600), nmax=4), ["C01"])
     run.add_jobs(jobs_for(defs, env, s, ("yaql", "jinja"), tok="visit"))
     return run.finish("model_checking",
                       "every (definition, outcome assignment, report order) explored by DFS on the real conductor; "
